@@ -40,7 +40,66 @@ ASSUMPTIONS = ['extents are positive (the property\'s quantifier); with a zero e
                'size_t arithmetic does not wrap (products of the explored shapes are far below 2^32)',
                'compile-time-constant and clipped shape kinds are covered by C09/C11, not here']
 PARTIAL = []
-KNOWN_PREDICATES = {}
+
+# The model MIRRORS the two open known findings (known/C06.json) so that the defect class itself is under the
+# correspondence run.  When the repair is applied to /repo, set the switch to False (the class is then judged by NumPy
+# and, for the None source, by the kind-blind model) and close the known finding:
+#   fixes/C06-sbt-none-clipped-target.diff -> MIRROR_NONE_CLIPPED = False
+#   fixes/C06-broadcast-zero-extent.diff   -> MIRROR_ZERO_WITH_ONE = False  (bc1 = max stays the model of positive extents)
+MIRROR_NONE_CLIPPED = True
+MIRROR_ZERO_WITH_ONE = True
+
+
+def k_parse(req):
+    """fields of a generated mixed-kind request `k6 id=… op=… shapes=… kinds=a/b salt=n` (None for other requests)"""
+    p = req.split(' ')
+    if p[0] != 'k6':
+        return None
+    d = dict(x.split('=', 1) for x in p[1:] if '=' in x)
+    shapes_ = [[] if t == '[]' else [int(v) for v in t.split(',')] for t in d['shapes'].split(';')]
+    return G.KCase(d['op'], shapes_, d['kinds'].split('/'), salt=int(d['salt']))
+
+
+def kf_none_source_clipped_target(case):
+    """index::shape_broadcast_to(None, target) where `target` is a tuple of clipped integers and some extent is larger
+    than the bound of the LAST element: the result array takes the last element's clipped type for every position
+    (meta::tuple_to_array / common_type), so that extent is clamped.  Reached directly (op sbt, kinds none/cl), through
+    view::broadcast_to(number, clipped target) and through broadcast_arrays / add of a number with arrays whose
+    common shape is a clipped tuple (all other operands of constant / clipped shape, at least one clipped)."""
+    c = k_parse(case.req)
+    if c is None:
+        return False
+    if c.op in ('sbt', 'bto'):
+        if c.kinds[0] not in ('none', 'num') or c.kinds[1] != 'cl':
+            return False
+        b = k_bounds(c, 1)
+        return any(v > b[-1] for v in c.shapes[1])
+    if c.op in ('barr', 'barr3', 'add'):
+        others = [k for k in c.kinds if k != 'num']
+        if len(others) == len(c.kinds) or not set(others) <= {'cs', 'ls', 'fx'} or 'ls' not in others:
+            return False
+        r = np_bshape(c.shapes)
+        return r is not None and any(v > r[-1] for v in r)
+    return False
+
+
+def kf_zero_extent_with_one(case):
+    """broadcast_shape / broadcast_arrays of run-time shapes in which, on some axis (aligned at the trailing axis), one
+    operand has extent 0 and another has extent 1: the implementation takes the maximum (1), NumPy the extent that is
+    not 1 (0)"""
+    p = case.req.split(' ')
+    if p[0] not in ('bshape', 'barrays'):
+        return False
+    d = dict(x.split('=', 1) for x in p[1:] if '=' in x)
+    ss = [[] if t == '[]' else [int(v) for v in t.split(',')] for t in d['shapes'].split(';')]
+    for k in range(1, max(len(x) for x in ss) + 1):
+        col = [x[-k] for x in ss if k <= len(x)]
+        if 0 in col and 1 in col:
+            return True
+    return False
+
+
+KNOWN_PREDICATES = {'none_source_clipped_target': kf_none_source_clipped_target, 'zero_extent_with_one': kf_zero_extent_with_one}
 
 
 def harness_specs(tier):
@@ -138,11 +197,14 @@ K_ATRIPLES = [([1, 4], [3, 4], [1]), ([2, 1], [1, 3], [2, 1, 1]), ([], [3, 1], [
 # (source, target) of broadcast_to
 K_BTO = [
     ([3, 1], [3, 5]), ([1, 4], [6, 4]), ([3], [2, 3]), ([4, 1], [2, 4, 3]), ([2, 3], [2, 3]), ([1], [2, 2]), ([], [2, 3]),
-    ([2, 3], [3]), ([2, 3], [2, 4]), ([3, 1], [1, 5]),
+    ([2, 3], [3]), ([2, 3], [2, 4]), ([3, 1], [1, 5]), ([], [3, 2]),
 ]
+# witnesses of the known findings (known/C06.json) are always part of the fixed table
+K_WITNESSES = [('sbt', ([], [3, 2]), ('none', 'cl'), 0), ('bto', ([], [3, 2]), ('num', 'cl'), 1),
+               ('barr3', ([], [3, 1], [1, 2]), ('num', 'cs', 'ls'), 2)]
 K_TU_SECONDS = 20.0          # compile budget of one generated TU (KCase.weight ~ seconds of g++ -O1)
-K_STRIDE = {'quick': dict(bs2=1, bs3=6, bto=2, barr=5, add=5, barr3=1),   # strides coprime with the 7 kinds
-            'thorough': dict(bs2=1, bs3=1, bto=1, barr=1, add=1, barr3=1)}
+K_STRIDE = {'quick': dict(bs2=1, bs3=6, sbt=2, bto=2, barr=5, add=5, barr3=1),   # strides coprime with the 7 kinds
+            'thorough': dict(bs2=1, bs3=1, sbt=1, bto=1, barr=1, add=1, barr3=1)}
 
 
 def _ikinds(s):
@@ -157,7 +219,7 @@ def _k_fixed(tier):
     """the seed-independent cases: every kind pair / triple over the tables (quick: a rotating 1/stride of the products
     that are expensive to compile, so that every kind combination still meets several table entries)"""
     stride = K_STRIDE[tier]
-    out = []
+    out = [G.KCase(op, shapes_, kinds, salt=salt) for op, shapes_, kinds, salt in K_WITNESSES]
 
     def take(op, items):
         st = stride[op]
@@ -167,6 +229,7 @@ def _k_fixed(tier):
 
     take('bs2', [((a, b), ks) for a, b in K_PAIRS for ks in itertools.product(_ikinds(a), _ikinds(b))])
     take('bs3', [(t, ks) for t in K_TRIPLES for ks in itertools.product(*[_ikinds(x) for x in t])])
+    take('sbt', [((a, b), (ka, kb)) for a, b in K_BTO for ka in _ikinds(a) for kb in G.INDEX_KINDS])
     take('bto', [((a, b), (ka, kb)) for a, b in K_BTO for ka in _akinds(a) for kb in G.DST_KINDS])
     take('barr', [((a, b), ks) for a, b in K_APAIRS for ks in itertools.product(_akinds(a), _akinds(b))])
     take('add', [((a, b), ks) for a, b in K_APAIRS for ks in itertools.product(_akinds(a), _akinds(b))])
@@ -224,6 +287,7 @@ def _k_seeded(tier, seed):
         if not b:
             b = [2]
         out.append(G.KCase('bto', (a, b), (rng.choice(_akinds(a)), rng.choice(G.DST_KINDS)), salt=rng.randrange(3), seeded=True))
+        out.append(G.KCase('sbt', (a, b), (rng.choice(_ikinds(a)), rng.choice(G.INDEX_KINDS)), salt=rng.randrange(3), seeded=True))
     for op, cnt in (('barr', 6), ('add', 6)):
         for _ in range(cnt * mul):
             a, b = arr_family(2)
@@ -246,7 +310,7 @@ def kplan(tier):
 
     def chunk(cases, prefix):
         # index-level and array-level cases in separate TUs (different headers); greedy by compile weight
-        for lvl, sel in (('i', [c for c in cases if c.op in ('bs2', 'bs3')]), ('v', [c for c in cases if c.op not in ('bs2', 'bs3')])):
+        for lvl, sel in (('i', [c for c in cases if c.op in ('bs2', 'bs3', 'sbt')]), ('v', [c for c in cases if c.op not in ('bs2', 'bs3', 'sbt')])):
             cur, w, n = [], 0.0, 0
             for c in sel + [None]:
                 if c is None or (cur and w + c.weight() > K_TU_SECONDS):
@@ -299,6 +363,10 @@ def k_oracle(c):
         if what == 'shape':
             v = _k_eval(payload, c.shapes)
             t = 'nothing' if v is None else fmt(v)
+        elif what == 'sbt':
+            src, dst = c.shapes
+            pad = len(dst) - len(src)
+            t = '%s/%s' % (fmt(dst), fmt([1 if (k < pad or src[k - pad] != dst[k]) else 0 for k in range(len(dst))])) if can_bto(src, dst) else 'nothing'
         elif what == 'bto':
             src, dst = c.shapes
             t = _k_arr(np.broadcast_to(_k_operand(src, 0), tuple(dst))) if can_bto(src, dst) else 'nothing'
@@ -313,11 +381,23 @@ def k_oracle(c):
     return 'ok' + ''.join(parts)
 
 
+def k_bounds(c, j):
+    """bounds of the clipped tuple that operand j (an index-level shape or the target of bto) was declared with"""
+    salt = c.salt + (2 * j if c.op in ('bs2', 'bs3', 'sbt') else 1)
+    return [G.cl_bound(v, salt, i) for i, v in enumerate(c.shapes[j])]
+
+
 def k_mreq(c):
     """the request the (kind-blind) Lean model answers"""
     cl = c.clauses()
     if c.op in ('bs2', 'bs3'):
         return 'kexpr shapes=%s terms=%s' % (fmt_lists(c.shapes), ','.join('%s:%s' % (n, G.prefix(e)) for n, _, e in cl))
+    if c.op == 'sbt':
+        # the model mirrors the clamping of the None overload for a clipped target (known finding): it is told the kinds
+        if not MIRROR_NONE_CLIPPED:
+            return 'ksbt src=%s dst=%s' % (fmt(c.shapes[0]), fmt(c.shapes[1]))
+        return 'ksbt src=%s dst=%s ksrc=%s kdst=%s bounds=%s' % (fmt(c.shapes[0]), fmt(c.shapes[1]), c.kinds[0], c.kinds[1],
+                                                                fmt(k_bounds(c, 1)) if c.kinds[1] == 'cl' else 'None')
     if c.op == 'bto':
         return 'kbto src=%s dst=%s' % (fmt(c.shapes[0]), fmt(c.shapes[1]))
     return '%s shapes=%s orders=%s names=%s' % ('kadd' if c.op == 'add' else 'kbarr', fmt_lists(c.shapes),
@@ -332,8 +412,11 @@ def kgen(tier):
             ranks = '/'.join(str(len(s)) for s in c.shapes)
             tags = ['kinds', 'k:' + c.op, 'k:' + ('seeded' if c.seeded else 'table')] + ['kind=' + k for k in sorted(set(c.kinds))] + \
                    ['k:ranks=' + ranks, 'k:refused' if '=nothing' in o else 'k:accepted']
-            yield Case('k6 id=%s %s' % (c.key, c.text()), name, oracle=o, mreq=k_mreq(c), nontrivial=nontriv([s for s in c.shapes]) or len(set(c.kinds)) > 1,
-                       tags=tags)
+            case = Case('k6 id=%s %s' % (c.key, c.text()), name, oracle=o, mreq=k_mreq(c), nontrivial=nontriv([s for s in c.shapes]) or len(set(c.kinds)) > 1,
+                        tags=tags)
+            if MIRROR_NONE_CLIPPED and c.op == 'sbt' and kf_none_source_clipped_target(case):
+                case.dom = False       # known-defect region: the model (ksbt) mirrors the clamp, NumPy is the judge
+            yield case
 
 
 # ---------------------------------------------------------------------------------------------- generator
@@ -467,11 +550,24 @@ def gen(tier, rng):
             if prod(res) <= 200:
                 yield Case('bto_ix src=%s dst=%s' % (fmt(src), fmt(res)), H, oracle=o_bto_ix(src, res), nontrivial=True, tags=['bto_ix'] + tg)
 
-    # -- off-domain: zero extents (property quantifies over positive extents): model mirrors the code, no oracle verdict
+    # -- off-domain: zero extents (the property quantifies over positive extents; NumPy is still the judge: a zero extent
+    #    paired with an extent 1 gives 1 instead of NumPy's 0 — known finding C06.broadcast-zero-extent-with-one — and
+    #    broadcast_arrays then unwraps Nothing).  Bounded: ranks <= 2, extents 0..2; the model mirrors the code.
+    def zcase(req, oracle, tags):
+        c = Case(req, H, dom=False, oracle=oracle, nontrivial=False, tags=tags + ['zero-extent'])
+        if not MIRROR_ZERO_WITH_ONE and kf_zero_extent_with_one(c):
+            c.model = False
+        return c
     Z = [s for s in shapes(2, 2, min_extent=0) if 0 in s]
     P = list(shapes(2, 2))
     for a in Z:
         for b in P + Z:
             for x, y in ((a, b), (b, a)):
-                yield Case('bshape shapes=%s' % fmt_lists([x, y]), H, dom=False, oracle=None, nontrivial=False, tags=['bshape', 'zero-extent'])
-                yield Case('sbt src=%s dst=%s' % (fmt(x), fmt(y)), H, dom=False, oracle=None, nontrivial=False, tags=['sbt', 'zero-extent'])
+                yield zcase('bshape shapes=%s' % fmt_lists([x, y]), o_bshape([x, y]), ['bshape'])
+                yield zcase('sbt src=%s dst=%s' % (fmt(x), fmt(y)), o_sbt(x, y), ['sbt'])
+    for t in ([[0], [1], [0]], [[1], [0], [1]], [[0], [1], [2]], [[2, 0], [1], [2, 1]], [[0, 1], [1, 0], [1, 1]], [[0], [], [0]]):
+        yield zcase('bshape shapes=%s' % fmt_lists(t), o_bshape(t), ['bshape'])
+    # broadcast_arrays over empty arrays (fine), and over the known class (the common shape keeps the 1, broadcast_to of the
+    # empty operand to it is Nothing and is unwrapped: assert / crash)
+    for t in ([[0], [0]], [[2, 0], [0]], [[1, 3], [0, 3]], [[0], [1]], [[1, 0], [0, 0]], [[2, 0], [2, 1]]):
+        yield zcase('barrays shapes=%s' % fmt_lists(t), o_barrays(t), ['barrays'])
